@@ -17,6 +17,7 @@ CONSTANTS
     ValidateUrls = TRUE
     CountSeparator = TRUE
     WriteEmptyUrlLabels = TRUE
+    ExtraStripsPreset = TRUE
     WholeDigests = TRUE
     UrlIdx = "layer"
     ReaderChecksRef = TRUE
